@@ -215,6 +215,18 @@ CHECKS["C05"] = {
     ],
 }
 
+CHECKS["C06"] = {
+    "pkg": "c06",
+    "level": "exploration",
+    "technique": "model-based generation of concurrent transaction programs (lock calls with all options, aggressive-locking attempts, failing statements, commits and rollbacks, region errors and topology changes at gates, no lost message); oracle = invariant over the final store state: no lock of an ended transaction, checked without expiring any lock",
+    "level_text": "Thousands of generated programs per run on mocktikv (incl. aggressive locking, deadlocks through the mock's detector) and unistore (async commit / 1PC). The store is scanned after every program; a lock is reported only if it is still present after 5 s of polling with no RPC in flight.",
+    "level_note": "Trusted: mocktikv / unistore; drain detection by RPC silence plus polling.",
+    "tests": [
+        {"name": "TestNoLeftoverLocks", "quick": 500, "thorough": 6000, "shards": 16, "timeout_q": 400},
+        {"name": "TestNoLeftoverLocksUni", "quick": 300, "thorough": 3000, "shards": 16, "timeout_q": 400},
+    ],
+}
+
 # properties without a registered check, with the reason (kept current by hand)
 NOT_CLAIMED = {}
 
